@@ -18,6 +18,7 @@ BUILT = {
  "C01": ("exploration", "Generated networks of 2-4 real stacks with overlapping transfers, independent windows and per-receiver latencies incl. re-entrant delivery, judged by a reference delivery model (multiset equality per listener, both directions). Reaches schedules/latencies the real-time suite cannot produce; covers thousands of networks per run.", "5/C01"),
  "C02": ("exploration", "Generated FD networks with bursts of up to 14 simultaneous sessions per stack (one or both directions, staggered waves) judged by a reference delivery model and a reference capacity model (first 8 RTS/CTS + 4 BAM accepted, further calls refused without a frame).", "5/C02"),
  "C03": ("exploration", "Differential testing against an independent implementation of the SAE frame layouts (reference peer + strict decoder) in both roles, both layers, RTS/CTS and BAM, with the peer's legal choices generated; a symmetric encoder+decoder mistake passes stack-vs-stack tests but fails here.", "5/C03"),
+ "C04": ("exploration", "Generated claim configurations (adversarial NAME sets in every order, AAC mix, address layouts, claim instants around the 250 ms veto window, latencies incl. re-entrant) judged by a validity predicate over final states and the bus trace: settled, unique, lowest NAME keeps a contested address, losers cannot-claim or move.", "5/C04"),
  "C06": ("fault_enumeration", "Every single frame loss and every silence point of either peer, for 110 transfer shapes on both data link layers, enumerated completely per shape (k over all bus frames), with recovery follow-up; payload/latency draws by Hypothesis.", "5/C06"),
  "C07": ("exploration", "Grammar-based fuzzing: protocol-aware frame sequences (all control bytes, boundary fields, spoofed sources, gaps up to beyond every timeout) injected while own transfers run; liveness via thread state and a deterministic busy-spin watchdog, then timer, release and follow-up-transfer oracles.", "5/C07"),
  "C08": ("exploration", "Every traced source line of either job thread as a pre-emption point (3 durations) for 8 transfer shapes, differential against the un-pre-empted run; double pre-emptions sampled. Line-granular, not bytecode-granular.", "5/C08"),
